@@ -16,7 +16,7 @@ RULE = ("Enumeration: every arc (start, length, strand; simple, origin-spanning,
         "of length 1..Lmax, all ordered pairs (overlap/contains/distance with and without wrap point), all "
         "triples for connect, all offsets in (-2L..2L), all extension distances 0..L+1. Random: Hypothesis "
         "locations (simple, multi-exon, origin-spanning multi-exon, either strand) on records up to 3000 bases "
-        "with boundary-biased coordinates. A case is non-trivial when a boundary coincides with 0 or L, an "
+        "with boundary-biased coordinates, plus short locations on records of 10^4..2^24 bases (pair functions and offsets). A case is non-trivial when a boundary coincides with 0 or L, an "
         "input spans the origin, two inputs touch (end == start) or a gap is within 1 of L/2; distinct = "
         "sha1 of the canonical spec (enumerated cases are distinct by construction).")
 ASSUMPTIONS = [
@@ -469,6 +469,25 @@ def pair_specs(draw):
 
 
 @st.composite
+def big_pair_specs(draw):
+    """ short locations on very long records (interval arithmetic only, no base sets) """
+    length = draw(st.sampled_from([10 ** 4, 10 ** 5 + 1, 10 ** 6, 10 ** 7 - 3, 2 ** 24]))
+    a = draw(st.one_of(gen.arc(length, max_len=5000), gen.exon_location(length, max_total=5000)))
+    anchors = tuple(x for p in a["parts"] for x in p) + (length // 2, length // 2 + a["parts"][0][0])
+    b = draw(st.one_of(gen.arc(length, max_len=5000, anchors=anchors), gen.exon_location(length, max_total=5000)))
+    return {"L": length, "a": a, "b": b}
+
+
+@st.composite
+def big_offset_specs(draw):
+    length = draw(st.sampled_from([10 ** 4, 10 ** 5 + 1, 10 ** 6]))
+    loc = draw(st.one_of(gen.arc(length, max_len=300), gen.exon_location(length, max_total=300)))
+    offset = draw(gen.coord(-2 * length, 2 * length, anchors=(0, length, -length, length - loc["parts"][0][1],
+                                                              -loc["parts"][0][0])))
+    return {"L": length, "loc": loc, "k": offset, "wrap": True}
+
+
+@st.composite
 def connect_specs(draw):
     length = draw(gen.lengths(1, 3000))
     count = draw(st.integers(1, 6))
@@ -536,6 +555,8 @@ def run(ctx) -> None:
     ctx.enum("offset_enum", enum_offset(ctx.pick(7, 10)), shards=shards)
     rand_shards = ctx.pick(4, 16)
     ctx.hyp("pair", pair_specs(), max_examples=ctx.pick(2000, 60000), shards=rand_shards)
+    ctx.hyp("pair", big_pair_specs(), max_examples=ctx.pick(600, 20000), shards=rand_shards)
+    ctx.hyp("offset", big_offset_specs(), max_examples=ctx.pick(400, 10000), shards=rand_shards)
     ctx.hyp("connect", connect_specs(), max_examples=ctx.pick(1500, 40000), shards=rand_shards)
     ctx.hyp("extend", extend_specs(), max_examples=ctx.pick(1000, 30000), shards=rand_shards)
     ctx.hyp("offset", offset_specs(), max_examples=ctx.pick(1500, 40000), shards=rand_shards)
